@@ -207,7 +207,12 @@ def run(pid, tier, seed, profile, oracle, n_quick, n_thorough, variants=None, ca
             if r.get("mutated"):
                 extra.append(dict(op="operand-mutation", key="operand-mutation", what="an operation altered the value of an existing object (one of its operands or an earlier result)",
                                   observed=r["mutated"][:2]))
-            for v in list(oracle(c, r, grp)) + (extra if mutation_oracle else []):
+            if r.get("config") is not None and list(r["config"]) != [c["cfg"]["n"], c["cfg"]["res"]]:
+                # no statement of the language sets the bitlength or the resolution: the library changed its own configuration
+                extra_cfg = [dict(op="configuration", key="configuration-changed-by-the-run",
+                                  what="the run left the library configuration changed: (bitlength, resolution) = %r, configured %r (exception: %s)" % (r["config"], [c["cfg"]["n"], c["cfg"]["res"]], r["exn"]))]
+            else: extra_cfg = []
+            for v in list(oracle(c, r, grp)) + (extra if mutation_oracle else []) + extra_cfg:
                 v.setdefault("kind", "oracle")
                 v.setdefault("case", dict(cfg=c["cfg"], prog=c["prog"], ins=c["ins"]))
                 oviol.append(v)
